@@ -18,6 +18,7 @@ from .core import (Unsupported, SymInt, SymIntStr, Rat, sym_int, sym_str, sym_fl
                    shim, tb, eng)
 from .abuf import ABuf, sha1, sha256, HEX
 from . import abuf as _abuf
+from .strs import SymStr
 
 REPO = _os.environ.get("VERIF_REPO", "/repo")
 PKG = _os.path.join(REPO, "torrentfile")
@@ -224,8 +225,71 @@ def ben_check(x, path="$"):
     raise EncodeError("%s: %r" % (path, x))
 
 
+def _is_pow2(x, hi=1100):
+    import z3
+    return core.SymBool(z3.Or([x.e == 2 ** k for k in range(hi)]))
+
+
+class HLog:
+    """libm stub: math.log2 of a symbolic positive int. The real result is some
+    float within the monotone bracket floor(log2 x) <= . <= ceil(log2 x), exact
+    for powers of two; anything decided from it on a non-power of two is
+    havoc'd and must be confirmed by replay on the real libm."""
+
+    def __init__(self, x, world):
+        self.x, self.w = x, world
+
+    def __rpow__(self, base):
+        if base != 2:
+            raise Unsupported("pow(%r, log2(sym))" % (base,))
+        if tb(self.x >= 2 ** 1024):
+            raise OverflowError(34, "Numerical result out of range")
+        return HPow(self.x, self.w)
+
+    def __symint__(self):
+        import z3
+        x = self.x
+        if tb(x >= 2 ** 64):
+            raise Unsupported("int(log2(x)) beyond 2**64")
+        k = core.SymInt(z3.Sum([z3.If(x.e >= 2 ** j, 1, 0) for j in range(1, 65)]))
+        k = core.concretize(k, "int(log2)")
+        if k >= 47 and not tb(_is_pow2(x)):
+            self.w.havoc_used = True
+            if tb(core.SymBool(z3.Bool("havoc_log_round_%d" % self.w.fresh()))):
+                return k + 1
+        return k
+
+    def __getattr__(self, n):
+        raise Unsupported("float op %s on log2(sym)" % n)
+
+
+class HPow:
+    def __init__(self, x, world):
+        self.x, self.w = x, world
+
+    def __eq__(self, o):
+        import z3
+        if isinstance(o, SymInt) and z3.eq(z3.simplify(o.e), z3.simplify(self.x.e)):
+            if tb(_is_pow2(self.x)):
+                return True
+            self.w.havoc_used = True
+            return core.SymBool(z3.Bool("havoc_pow_eq_%d" % self.w.fresh()))
+        raise Unsupported("2**log2(x) compared with something else")
+
+    def __ne__(self, o):
+        return core.neg(self.__eq__(o))
+
+    def __hash__(self):
+        return 19
+
+    def __getattr__(self, n):
+        raise Unsupported("float op %s on 2**log2(sym)" % n)
+
+
 class World:
     def __init__(self, fs, clock=1_700_000_000, mutants=None, argv=None, quote_model=True):
+        self.havoc_used = False
+        self._fresh = 0
         self.fs = fs
         self.clock = clock
         self.mutants = mutants or {}
@@ -238,6 +302,10 @@ class World:
         HEX.clear()
         self._models = self._build_models()
         self._bi = self._builtins()
+
+    def fresh(self):
+        self._fresh += 1
+        return self._fresh
 
     # ------------------------------------------------------------------ models
     def _build_models(self):
@@ -333,8 +401,12 @@ class World:
             return _math.floor(x)
 
         def log2(x):
-            if isinstance(x, (SymInt, Rat)):
-                raise Unsupported("math.log2 of symbolic value")
+            if isinstance(x, SymInt):
+                if tb(x <= 0):
+                    raise ValueError("math domain error")
+                return HLog(x, w)
+            if isinstance(x, Rat):
+                raise Unsupported("math.log2 of symbolic rational")
             return _math.log2(x)
 
         def log(x, *a):
@@ -413,7 +485,7 @@ class World:
         b.update(
             len=sym_len, range=sym_range,
             int=shim(int, sym_int, (SymInt,)),
-            str=shim(str, sym_str),
+            str=shim(str, sym_str, (SymStr,)),
             float=shim(float, sym_float),
             bytes=ABuf, bytearray=ABuf, __abuf__=ABuf,
             open=self.fs.open,
